@@ -51,11 +51,19 @@ def mk(engine, name, ad, mode, stor, k, d, conv, sched, cbthrow=0, k2=None):
 
 
 def rand_conv(rng, ty, ad, always=False):
+    """[ckind, cdatum(, spec)]; spec 3 = the converter is handed the promise and may also resolve it with an exception (2),
+    decline (3: the outer future must complete as a broken promise) or forward it to thread 2 (4)"""
     if ad != 3 and not (always or rng.random() < 0.1):
         return None
-    spec = rng.choice([0, 3] if ty == "v" else [0, 1, 2, 3])
+    spec = rng.choice([0, 3, 3] if ty == "v" else [0, 1, 2, 3, 3, 3])
+    if spec == 3:
+        return [rng.choice([0, 1, 2, 3, 3, 4, 4]), rng.randint(1, 50), 3]
     cv = [rng.choice([0, 0, 1]), rng.randint(1, 50)]
     return cv + [spec] if rng.random() < 0.8 else cv
+
+
+def nthreads(conv, k2):
+    return 3 if (k2 is not None or (conv is not None and conv[0] == 4)) else 2
 
 
 def rand_sched(rng, L, nthr=2):
@@ -86,7 +94,13 @@ def gen_ctl(seed, tier):
             for ty in TYPES:
                 if tier == "quick" and stor in (2, 3, 4) and ty != TYPES[(ad + mode + k + stor) % 3]: continue
                 co = "c" if (j % 2) else ""
-                cases.append(mk("adapt" + co + ty, "s%d" % j, ad, mode, stor, k, rng.randint(1, 999), rand_conv(rng, ty, ad, True) if ad == 3 else None, [])); j += 1
+                cv = rand_conv(rng, ty, ad, True) if ad == 3 else None
+                cases.append(mk("adapt" + co + ty, "s%d" % j, ad, mode, stor, k, rng.randint(1, 999), cv,
+                                rand_sched(rng, 10, 3) if (cv and cv[0] == 4) else [])); j += 1
+                if ad == 3:      # every behaviour of the promise-passing converter for every timing and outcome
+                    for b in (2, 3, 4):
+                        cases.append(mk("adapt" + co + ty, "s%d" % j, ad, mode, stor, k, rng.randint(1, 999), [b, rng.randint(1, 50), 3],
+                                        rand_sched(rng, 10, 3) if b == 4 else [])); j += 1
     # callback_await with a callback that throws after doing its work: still exactly one invocation
     for mode in range(4):
         for stor in (0, 1, 3):
@@ -94,7 +108,7 @@ def gen_ctl(seed, tier):
                 ty = TYPES[(mode + stor + k) % 3]
                 cases.append(mk("adapt" + ty, "t%d" % j, 0, mode, stor, k, rng.randint(1, 999), None,
                                 rand_sched(rng, 14) if mode == 2 else [], cbthrow=1)); j += 1
-    n = 520 if tier == "quick" else 6000
+    n = 420 if tier == "quick" else 6000
     two = [c for c in configs() if c[1] == 2]
     for i in range(n):
         ad, mode, stor = two[i % len(two)] if rng.random() < 0.8 else rng.choice(two)
@@ -103,21 +117,21 @@ def gen_ctl(seed, tier):
         co = rng.choice(["", "", "c"])
         k = rng.choice([0, 0, 1, 2])
         k2 = None
-        if rng.random() < 0.3:                       # competing resolver on a third thread
+        cv = rand_conv(rng, ty, ad)
+        if rng.random() < 0.3 and not (cv is not None and cv[0] == 4):   # competing resolver on a third thread
             k2 = (rng.choice([0, 1, 2, 2]), rng.randint(1, 999))
-        nthr = 3 if k2 else 2
-        cases.append(mk("adapt" + co + ty, "c%d" % i, ad, 2, stor, k, rng.randint(1, 999), rand_conv(rng, ty, ad), 
-                        rand_sched(rng, rng.choice([0, 6, 12, 18, 26]), nthr), k2=k2))
+        cases.append(mk("adapt" + co + ty, "c%d" % i, ad, 2, stor, k, rng.randint(1, 999), cv,
+                        rand_sched(rng, rng.choice([0, 6, 12, 18, 26]), nthreads(cv, k2)), k2=k2))
     if tier != "quick":
         x = 0
         for (ad, mode, stor) in two:
             if stor in (1, 2): continue
             for k in (0, 1, 2):
-                cvs = [(0, 7, 0), (1, 9, 3)] if ad == 3 else [None]
+                cvs = [(0, 7, 0), (1, 9, 3), (3, 4, 3), (4, 6, 3)] if ad == 3 else [None]
                 for cv in cvs:
                     L = 11 if ad == 3 else 8
                     for pre in itertools.product(range(2), repeat=L):
-                        if ad == 3 and k != 0 and cv[0] == 1 and pre[0] == 1: continue   # halves the least interesting family
+                        if ad == 3 and k != 0 and cv[0] != 0 and pre[0] == 1: continue   # halves the least interesting families
                         ty = TYPES[x % 3]
                         cases.append(mk("adapt" + ty, "x%d" % x, ad, 2, stor, k, 5, cv, pre)); x += 1
         # competitor: all schedule prefixes over three threads (3^7) for the short adapters
@@ -129,7 +143,8 @@ def gen_ctl(seed, tier):
     bad = [[[1, 1, 0, 0], [2, 0, 1]], [[1, 2, 2, 1], [2, 0, 1]], [[1, 7, 2, 0], [2, 0, 1]], [[2, 0, 1]], [[1, 0, 2, 0]],
            [[1, 0, 4, 0], [2, 0, 1]], [[1, 0, 2, 0], [2, 3, 1]], [[1, 3, 2, 0], [2, 0, 1], [3, 2, 2]], [[1, 3, 2], [2, 0, 1]], [],
            [[1, 0, 2, 5], [2, 0, 1]], [[1, 0, 3, 0], [2, 0, 1], [5, 0, 1]], [[1, 0, 2, 0], [2, 0, 1], [5, 3, 1]],
-           [[1, 3, 2, 0], [2, 0, 1], [3, 0, 2, 4]]]
+           [[1, 3, 2, 0], [2, 0, 1], [3, 0, 2, 4]], [[1, 3, 2, 0], [2, 0, 1], [3, 3, 2, 0]], [[1, 3, 2, 0], [2, 0, 1], [3, 2, 2]],
+           [[1, 3, 2, 0], [2, 0, 1], [3, 4, 2, 3], [5, 0, 1]], [[1, 3, 2, 0], [2, 0, 1], [3, 5, 2, 3]]]
     for b, ops in enumerate(bad):
         cases.append(Case("adapt", "m%d" % b, ops + [[9, 0, 1]]))
     cases.append(Case("adaptv", "m90", [[1, 3, 2, 0], [2, 0, 1], [3, 0, 2, 1], [9, 0]]))
@@ -147,9 +162,9 @@ def gen_seq(seed, tier):
                 for ty in TYPES:
                     if tier == "quick" and ty != TYPES[(ad + mode + k + stor + 1) % 3]: continue
                     co = "c" if (j % 2) else ""
-                    k2 = (rng.choice([0, 1, 2]), rng.randint(1, 99)) if (mode == 2 and rng.random() < 0.3) else None
-                    cases.append(mk("adseq" + co + ty, "q%d" % j, ad, mode, stor, k, rng.randint(1, 999),
-                                    rand_conv(rng, ty, ad, True) if ad == 3 else None, [], k2=k2)); j += 1
+                    cv = rand_conv(rng, ty, ad, True) if ad == 3 else None
+                    k2 = (rng.choice([0, 1, 2]), rng.randint(1, 99)) if (mode == 2 and rng.random() < 0.3 and not (cv and cv[0] == 4)) else None
+                    cases.append(mk("adseq" + co + ty, "q%d" % j, ad, mode, stor, k, rng.randint(1, 999), cv, [], k2=k2)); j += 1
     for mode in range(4):
         for k in (0, 1, 2):
             cases.append(mk("adseq" + TYPES[(mode + k) % 3], "qt%d" % j, 0, mode, mode % 2, k, rng.randint(1, 999), None, [], cbthrow=1)); j += 1
